@@ -3,6 +3,7 @@ package checks
 import (
 	"encoding/json"
 	"fmt"
+	"go/ast"
 	"go/constant"
 	"go/parser"
 	"go/token"
@@ -172,6 +173,16 @@ func c11SameExpr(a, b string) bool {
 	return err1 == nil && err2 == nil && norm.Expr(ea) == norm.Expr(eb)
 }
 
+// c11Importer declares any imported package under the given name, exporting var V int.
+type c11Importer struct{ name string }
+
+func (m c11Importer) Import(path string) (*types.Package, error) {
+	pkg := types.NewPackage(path, m.name)
+	pkg.Scope().Insert(types.NewVar(token.NoPos, pkg, "V", types.Typ[types.Int]))
+	pkg.MarkComplete()
+	return pkg, nil
+}
+
 func runC11(r *ev.Recorder) {
 	if r.Tier == ev.Thorough {
 		r.SetDeadline(40 * 60 * 1e9)
@@ -181,7 +192,7 @@ func runC11(r *ev.Recorder) {
 	r.Rule = "Complete domains: bool, all int8/uint8/int16/uint16 values (thorough: all 2^32 float32 bit patterns, non-finite skipped). " +
 		"Complete structured families for wider types: +-2^k+d (|d|<=2), all values with <=2 set bits, type limits +-1; float64/float32: every exponent x 24 mantissa patterns x sign, " +
 		"every m*10^k (m in 1..999, k in -330..310 resp. -50..40), subnormal extremes, +-0; complex: all pairs of a float pool. Each via Lit and (structured families) LitFunc. " +
-		"Every ordered pair of 25 values of all types (several with the same numeric value) inside 9 contexts (Call, Parens, Custom groups with operator separators, Index, Values, Dict, after LitRune/LitByte) must render each literal exactly as alone. Oracle: go/types evaluates the rendered text as ONE constant expression; typed literals must have exactly the type, bare ones the default type, and the value (converted to the type) must equal the input. " +
+		"Every ordered pair of 25 values of all types (several with the same numeric value) inside 9 contexts (Call, Parens, Custom groups with operator separators, Index, Values, Dict, after LitRune/LitByte) must render each literal exactly as alone. Every typed literal in a File that imports a package whose last path element, ImportName or ImportAlias is the literal's type name (literal first / import first): the file type-checks and the constant has exactly its type. Oracle: go/types evaluates the rendered text as ONE constant expression; typed literals must have exactly the type, bare ones the default type, and the value (converted to the type) must equal the input. " +
 		"distinct_nontrivial = distinct rendered texts"
 	r.Assume = []string{"go/types + go/constant constant evaluation and conversion rounding of the installed toolchain",
 		"-0.0 is compared with == (Go constants have no negative zero)",
@@ -375,6 +386,68 @@ func runC11(r *ev.Recorder) {
 					if !got.OK() || (got.Out != want && !c11SameExpr(got.Out, want)) {
 						r.Violate(ev.Violation{Signature: "c11:literal-in-context:" + cx.name, What: fmt.Sprintf("Lit(%T %v) and Lit(%T %v) inside %s render %q, want %q (each literal exactly as it renders alone)", a, a, b, b, cx.name, got, want),
 							Case: ev.JSON(c11Case{Type: "litfunc-stateful"}), Detail: "a literal's text changed because of its surroundings or of another literal in the same File"})
+					}
+				}
+			}
+		}
+	}
+
+	// typed literals in a File that also imports a package whose guessed, stated or requested name is
+	// the literal's type name: the file must type-check and the literal keep exactly its type
+	{
+		typed := []any{int8(1), int16(1), int32(1), int64(1), uint(1), uint8(1), uint16(1), uint32(1), uint64(1), uintptr(1), float32(1), complex64(1), 1, 1.5, true, complex128(1i)}
+		for _, v := range typed {
+			tn := reflect.TypeOf(v).String()
+			for place := 0; place < 3; place++ {
+				for _, litFirst := range []bool{false, true} {
+					path := "x.y/" + tn
+					f := jen.NewFile("p")
+					switch place {
+					case 1:
+						path = "x.y/q"
+						f.ImportName(path, tn)
+					case 2:
+						path = "x.y/q"
+						f.ImportAlias(path, tn)
+					}
+					ref := jen.Var().Id("_").Op("=").Qual(path, "V")
+					lit := jen.Const().Id("L").Op("=").Lit(v)
+					if litFirst {
+						f.Add(lit)
+						f.Add(ref)
+					} else {
+						f.Add(ref)
+						f.Add(lit)
+					}
+					o := jh.RenderFile(f)
+					r.Eval(1)
+					desc := fmt.Sprintf("Lit(%s(...)) in a File importing %q (%s %s; literal first: %v)", tn, path, []string{"last path element", "ImportName", "ImportAlias"}[place], tn, litFirst)
+					r.Distinct(desc)
+					msg := ""
+					if !o.OK() {
+						msg = "render failed: " + o.String()
+					} else {
+						fset := token.NewFileSet()
+						af, err := parser.ParseFile(fset, "out.go", o.Out, 0)
+						if err != nil {
+							msg = "output does not parse: " + err.Error()
+						} else {
+							conf := types.Config{Importer: c11Importer{name: tn}, Error: func(error) {}}
+							pkg, err := conf.Check("p", fset, []*ast.File{af}, nil)
+							if err != nil {
+								msg = "type error: " + err.Error()
+							} else if l, ok := pkg.Scope().Lookup("L").(*types.Const); !ok {
+								msg = "L is no constant"
+							} else if c11Bare[tn] && !types.Identical(types.Default(l.Type()), c11Basic[tn]) || !c11Bare[tn] && !types.Identical(l.Type(), c11Basic[tn]) {
+								msg = fmt.Sprintf("L has type %v, want %s", l.Type(), tn)
+							}
+						}
+						if msg != "" {
+							msg += "\n" + o.Out
+						}
+					}
+					if msg != "" {
+						r.Violate(ev.Violation{Signature: "c11:type-name-shadowed:" + tn, What: desc + ": " + jh.Short(msg, 200), Case: ev.JSON(c11Case{Type: "litfunc-stateful"}), Detail: msg})
 					}
 				}
 			}
